@@ -89,7 +89,7 @@ Qed.
 Lemma not_mentioned ev r : mentions ev r = false ->
   joins ev r = false /\ (if src_eqb (ev_src ev) (Some r) then ev_ids ev else []) = [].
 Proof.
-  destruct ev as [r' e|e|es|r'|r'|r'|r' e|s r' e]; simpl; intros M; try rewrite M; try (split; reflexivity).
+  destruct ev as [r' e|e|es|r'|r'|r'|r' e|s r' e|r'|e|r' e]; simpl; intros M; try rewrite M; try (split; reflexivity).
   destruct (site_has_row s); simpl; [rewrite M|]; split; reflexivity.
 Qed.
 
@@ -217,14 +217,18 @@ Proof.
   induction h as [|ev h IH] using rev_ind; intros W Hn; [exact once_init|].
   unfold wf_hist in W. rewrite wf_snoc in W. apply andb_true_iff in W as [W1 W2].
   specialize (IH W1 (nodup_ids_prefix h ev Hn)).
-  destruct ev as [r e|e|es|r|r|r|r e|s r e].
+  destruct ev as [r e|e|es|r|r|r|r e|s r e|r|e|r e].
   - apply once_plain; [exact IH | exact I | exact Hn].
   - apply once_plain; [exact IH | exact I | exact Hn].
   - apply once_plain; [exact IH | exact I | exact Hn].
   - apply once_attach; [exact IH | | exact (nodup_ids_prefix _ _ Hn)].
-    simpl in W2. apply negb_true_iff in W2. exact W2.
+    simpl in W2. apply andb_true_iff in W2 as [W2 _]. apply negb_true_iff in W2. exact W2.
   - eapply once_made; [exact IH | left; reflexivity | exact W2].
   - eapply once_made; [exact IH | right; reflexivity | exact W2].
+  - apply once_plain; [exact IH | exact I | exact Hn].
+  - apply once_plain; [exact IH | exact I | exact Hn].
+  (* the other table's events raise nothing here and join nothing *)
+  - apply once_plain; [exact IH | exact I | exact Hn].
   - apply once_plain; [exact IH | exact I | exact Hn].
   - apply once_plain; [exact IH | exact I | exact Hn].
 Qed.
@@ -277,4 +281,15 @@ Proof.
   - intros x I. apply in_map_iff in I as (e & <- & I). exists e. split; [reflexivity | exact (Hi e I)].
   - intros w D. specialize (Hf w). rewrite D in Hf.
     rewrite (filter_map_some (memb (raised_by h w))), Hf. reflexivity.
+Qed.
+
+(* what is raised on the other table, or on a row after the other table took
+   it, never shows up here (and by [exactly_once] nothing raised on the row
+   while it was here is lost: [delivered] stays true for it) *)
+Theorem elsewhere_never : forall h, wf_hist h -> NoDup (all_ids h ++ other_ids h) ->
+  forall e, In e (other_ids h) -> ~ In (Some e) (log_of (table_errors (run h))).
+Proof.
+  intros h W Hn e I K. apply NoDup_app_iff in Hn as (Na & _ & D).
+  destruct (exactly_once h W Na) as (_ & _ & H3 & _).
+  destruct (H3 _ K) as (e' & E & I'). inversion E; subst e'. exact (D e I' I).
 Qed.
